@@ -125,9 +125,13 @@ V("c08-generic-radius-wrong-getter", "fault", "C08", P + "base_classes.py",
 V("c08-rw-guard-not-form", "rewrite", "C08", P + "sphere.py",
   "        if value > 0:\n            self._radius = value / 2\n        else:\n            raise ValueError(\"Diameter must be greater than zero.\")",
   "        if not value > 0:\n            raise ValueError(\"Diameter must be greater than zero.\")\n        self._radius = value / 2")
-V("c08-rw-guard-le-form", "rewrite", "C08", P + "circle.py",
+# (was filed as a rewrite until GUARD-4: the refusal form lets a NaN radius through - Circle(nan) is no longer refused)
+V("c08-guard-le-form-admits-nan", "fault", "C08", P + "circle.py",
   "        if value > 0:\n            self._radius = value\n        else:\n            raise ValueError(\"Radius must be greater than zero.\")",
-  "        if value <= 0:\n            raise ValueError(\"Radius must be greater than zero.\")\n        self._radius = value")
+  "        if value <= 0:\n            raise ValueError(\"Radius must be greater than zero.\")\n        self._radius = value", rule="GUARD-4")
+V("c08-rw-guard-not-gt-form", "rewrite", "C08", P + "circle.py",
+  "        if value > 0:\n            self._radius = value\n        else:\n            raise ValueError(\"Radius must be greater than zero.\")",
+  "        if not value > 0:\n            raise ValueError(\"Radius must be greater than zero.\")\n        self._radius = value")
 V("c08-rw-power-form", "rewrite", "C08", P + "polyhedron.py",
   "scale = (value / self.volume) ** (1 / 3)", "scale = np.cbrt(value / self.volume)")
 V("c08-rw-split-statement", "rewrite", "C08", P + "ellipse.py",
